@@ -227,7 +227,33 @@ def impl_element(b):
         return elm.load(b['id'], P=a[0].real, Q=a[0].imag, V_ref=a[1].real)
     if c == 'load_i':
         return elm.load(b['id'], P=a[0].real, Q=a[0].imag, I_ref=a[1].real)
+    if c == 'raw_zv':
+        return elm.NortenElement(name=b['id'], type=b.get('kind', 'impedance'), Z=realish(a[0]), V=realish(a[1]))
+    if c == 'raw_yi':
+        return elm.TheveninElement(name=b['id'], type=b.get('kind', 'admittance'), Y=realish(a[0]), I=realish(a[1]))
     raise ValueError(c)
+
+
+KIND_CODE = {'impedance': 1, 'admittance': 2, 'resistor': 3, 'conductor': 4, 'load': 5, 'voltage_source': 6,
+             'current_source': 7, 'open_circuit': 8, 'short_circuit': 9}
+KIND_NAME = {v: k for k, v in KIND_CODE.items()}
+
+
+def element_to_case(e, n1=None, n2=None):
+    """implementation element object -> raw case branch (exact field values)"""
+    from CircuitCalculator.Network import elements as elm
+    if isinstance(e, elm.NortenElement):
+        d = {'id': e.name, 'ctor': 'raw_zv', 'kind': e.type, 'args': [cx(e.Z), cx(e.V)]}
+    else:
+        d = {'id': e.name, 'ctor': 'raw_yi', 'kind': e.type, 'args': [cx(e.Y), cx(e.I)]}
+    if n1 is not None:
+        d['n1'] = n1
+        d['n2'] = n2
+    return d
+
+
+def network_to_case(net):
+    return {'zero': net.node_zero_label, 'branches': [element_to_case(b.element, b.node1, b.node2) for b in net.branches]}
 
 
 def impl_network(case):
@@ -235,11 +261,18 @@ def impl_network(case):
     return Network([Branch(b['n1'], b['n2'], impl_element(b)) for b in case['branches']], case['zero'])
 
 
-def tok_branch(b):
-    t = t_label(b['n1']) + t_label(b['n2']) + [CTOR_CODE[b['ctor']]] + t_label(b['id'])
+def tok_elem(b):
+    if b['ctor'] in ('raw_zv', 'raw_yi'):
+        t = [11 if b['ctor'] == 'raw_zv' else 12] + t_label(b['id']) + [KIND_CODE.get(b.get('kind'), 0)]
+    else:
+        t = [CTOR_CODE[b['ctor']]] + t_label(b['id'])
     for a in b['args']:
         t += t_c(uncx(a))
     return t
+
+
+def tok_branch(b):
+    return t_label(b['n1']) + t_label(b['n2']) + tok_elem(b)
 
 
 def tok_network(case):
